@@ -15,7 +15,10 @@ LEVEL = 'exploration'
 JOBS = {'quick': 2, 'thorough': 16}
 REQUIRED_MONITORS = ('move_contract', 'displ_contract')
 REQUIRED_CLASSES = ('move:tree', 'move:cyclic', 'displ:1', 'displ:2', 'displ:3', 'displ:4+',
-                    'table:agrees', 'table:disagrees', 'embedded:mc-moves', 'graph:forest')
+                    'table:agrees', 'table:disagrees', 'embedded:mc-moves', 'graph:forest',
+                    'sequence:same-table-object', 'sequence:table-lengths-edited-in-place',
+                    'sequence:table-graph-edited-in-place', 'sequence:positions-edited-in-place',
+                    'sequence:other-table-same-size')
 RULE = ('enumerated part: every labelled tree on n<=Nmax vertices x every moved atom (Nmax = 7 thorough; quick: 6 '
         'plus every 10th tree on 7); random part: trees, cyclic graphs and forests up to 60 atoms. A case is '
         'non-trivial when the moved atom has at least one neighbour that has to be re-positioned; distinct = '
@@ -58,6 +61,8 @@ def cases(ctx):
         yield {'kind': 'displ', 'batch': b}
     for b in range(6 if ctx.tier == 'quick' else 200):
         yield {'kind': 'emb', 'batch': b}
+    for b in range(40 if ctx.tier == 'quick' else 1500):
+        yield {'kind': 'seq', 'batch': b}
 
 
 def prufer_from_index(idx, n):
@@ -212,8 +217,76 @@ def run_emb(ctx, case):
     ctx.hit('embedded:mc-moves')
 
 
+def run_seq(ctx, case):
+    """Call sequences that re-use objects: the same table dict and the same coordinate array are passed again and
+    again, and between calls they are edited in place (lengths rescaled, a bond re-attached elsewhere, atoms shifted)
+    or swapped for another table of the same size.  The contract judges every call against the arguments of that
+    call, so anything remembered from an earlier call shows."""
+    import gaddlemaps
+    rng = ctx.rng('seq', case['batch'])
+    move = gaddlemaps.move_mol_atom
+    n = int(rng.integers(3, 25))
+    edges = gen.random_tree(rng, n)
+    pos = gen.embed_graph(rng, n, edges)
+    info = bonds_table(rng, n, edges, pos, bool(rng.random() < 0.5))
+    other_edges = gen.random_tree(rng, n)
+    other = bonds_table(rng, n, other_edges, pos, False)
+    hot = [int(a) for a in rng.integers(0, n, 3)]
+    ops = []
+    for step in range(int(rng.integers(6, 16))):
+        op = ['same', 'same', 'lengths', 'graph', 'positions', 'swap'][int(rng.integers(0, 6))] if step else 'same'
+        table = info
+        if op == 'lengths':
+            f = float(rng.choice([10.0, 0.1, rng.uniform(0.5, 2.0)]))
+            for x in list(info):
+                for idx, (y, l) in enumerate(info[x]):
+                    if x < y and rng.random() < 0.6:
+                        info[x][idx] = (y, l * f)                       # edited inside the same list objects
+                        info[y][[j for j, _ in info[y]].index(x)] = (x, l * f)
+            ctx.hit('sequence:table-lengths-edited-in-place')
+        elif op == 'graph':
+            # detach a leaf and attach it to another atom: still a tree, same dict object
+            leaves = [a for a in info if len(info[a]) == 1]
+            leaf = leaves[int(rng.integers(0, len(leaves)))]
+            parent, length = info[leaf][0]
+            cands = [a for a in range(n) if a not in (leaf, parent)]
+            newp = cands[int(rng.integers(0, len(cands)))]
+            info[parent] = [(j, l) for j, l in info[parent] if j != leaf]
+            if not info[parent]:
+                info[parent] = [(leaf, length)]
+                info[leaf] = [(parent, length)]
+            else:
+                info[leaf] = [(newp, length)]
+                info.setdefault(newp, []).append((leaf, length))
+            ctx.hit('sequence:table-graph-edited-in-place')
+        elif op == 'positions':
+            pos += rng.normal(size=pos.shape) * 0.05
+            ctx.hit('sequence:positions-edited-in-place')
+        elif op == 'swap':
+            table = other
+            ctx.hit('sequence:other-table-same-size')
+        else:
+            ctx.hit('sequence:same-table-object')
+        atom = hot[int(rng.integers(0, 3))] if rng.random() < 0.7 else int(rng.integers(0, n))
+        displ = rng.normal(size=3) * 10.0 ** rng.uniform(-2, 0)
+        ops.append(op)
+        try:
+            if rng.random() < 0.8:
+                out = move(pos, table, atom_index=atom, displ=displ)
+            else:
+                np.random.seed(int(rng.integers(0, 2**31 - 1)))
+                out = move(pos, table, atom_index=atom, sigma_scale=0.5)
+        except Exception as exc:  # noqa
+            ctx.violation(f'move-raises:{type(exc).__name__}', f'{exc}', witness={'n': n, 'ops': ops, 'atom': atom})
+            return
+        ctx.count('evaluations')
+        if rng.random() < 0.5:
+            pos[:] = out        # the next call starts from the moved configuration, same array object
+    ctx.nontrivial(('seq', n, tuple(sorted(set(ops)))))
+
+
 def run_case(ctx, case):
-    {'enum': run_enum, 'rand': run_rand, 'displ': run_displ, 'emb': run_emb}[case['kind']](ctx, case)
+    {'enum': run_enum, 'rand': run_rand, 'displ': run_displ, 'emb': run_emb, 'seq': run_seq}[case['kind']](ctx, case)
 
 
 def finalize(ctx):
